@@ -510,13 +510,16 @@ void check_log(const json& c, const RunResult& rr, bool real, const RealAcc* acc
         bool complete = false;
         for (const auto& x : exp) {
             const std::string s = x.get<std::string>();
-            if (s[0] == 'b') {
-                const int m = std::atoi(s.c_str() + 1);
-                const int sub = std::atoi(s.c_str() + s.find('.') + 1);
-                for (int r = 0; r < R; ++r) e_ids.push_back(static_cast<int64_t>(m * 100 + sub) * 100000 + r);
-            } else {
+            if (s[0] != 'b') {
                 if (s == "eod") complete = true;
                 e_other.push_back(s);
+            }
+        }
+        // the selected objects of the model's file in file order (a real read() may deliver more than one model buffer)
+        for (int m = (g_cfg.hdrblk ? 2 : 1); m <= g_cfg.n; ++m) {
+            if (skipped(m)) continue;
+            for (int sub = 1; sub <= g_cfg.nest.at(static_cast<std::size_t>(m - 1)); ++sub) {
+                for (int r = 0; r < R; ++r) e_ids.push_back(static_cast<int64_t>(m * 100 + sub) * 100000 + r);
             }
         }
         for (const auto& s : rr.log) if (s != "data") g_other.push_back(s);
